@@ -10,6 +10,7 @@ the specification every cell is a function of its group's row list. Here:
         PERCENTILE, BOOL_AND, BOOL_OR are functions of the MULTISET of the group's argument values;
   * `agg_perm_invariant`           hence the specification's table is the same for every permutation of the rows;
   * `engine_perm_invariant`        and so is the table the engine shows (through the refinement);
+  * `batch_run_ignores_line_order` and what the executed batch run `runBatch` prints for a file and any permutation of it;
   * `concat_*`                     the result over a concatenation is the key-wise combination of the parts: the groups
         are the union, a group's rows are its rows in part one followed by its rows in part two, counts and sums add,
         minima and maxima combine.
@@ -69,6 +70,18 @@ theorem engine_perm_invariant {O : Oracles} {q : AggStmt} (hwf : StmtWF q) {rows
       (aggRun O q rows₂ {}).bind (fun st => finalResult O q { agg := st }) := by
   rw [engine_refines_spec_total hwf rows₁ hspec hc₁]
   rw [engine_refines_spec_total hwf rows₂ (by rw [← table_perm h hsafe]; exact hspec) hc₂]
+
+/-- **the executed batch run ignores line order** (`runBatch` = the `FileExecutor` loop the driver runs): for an aggregate
+statement without join and two files whose lines are permutations of each other, the printed table and the line count
+are the same — whenever the specification answers for the first file with an empty deviation class (C04), `PermSafe` holds
+for its admitted rows, and the second file is outside D10/D15 as well -/
+theorem batch_run_ignores_line_order {O : Oracles} {qy : Query} {q : AggStmt} (hq : qy.stmt = .aggregate q) (hwf : StmtWF q)
+    (hj : qy.join = none) (joined : List FileLine) {l₁ l₂ : List FileLine} (hp : l₁.Perm l₂)
+    (hsafe : ∀ keyed, keyedRows O q (envsOf qy.table l₁) = some keyed → PermSafe O q keyed)
+    {ro : RunOut} (h₁ : Spec.Agg.batch O qy q joined [l₁] = some (ro, ""))
+    (hc₂ : deviationClass O q (envsOf qy.table l₂) = "") :
+    runBatch O qy joined [l₁] none = runBatch O qy joined [l₂] none :=
+  runBatch_perm_invariant hq hwf hj joined hp hsafe h₁ hc₂
 
 /-! ### input split: the result over `r₁ ++ r₂` is the key-wise combination of the results over `r₁` and `r₂` -/
 
